@@ -21,6 +21,7 @@ import (
 	"context"
 	"database/sql/driver"
 	"fmt"
+	"strconv"
 	"strings"
 
 	"github.com/arana-db/parser/ast"
@@ -523,24 +524,30 @@ func (i *insertExecutor) autoGeneratePks(execCtx *types.ExecContext, autoColumnN
 			log.Errorf("build prepare stmt: %+v", err)
 			return nil, err
 		}
+		defer stmt.Close()
 
 		rows, err := stmt.Query(nil)
 		if err != nil {
 			log.Errorf("stmt query: %+v", err)
 			return nil, err
 		}
+		defer rows.Close()
 
-		if len(rows.Columns()) > 0 {
-			var curStep []driver.Value
-			if err := rows.Next(curStep); err != nil {
-				return nil, err
-			}
-
-			if curStepInt, ok := curStep[0].(int64); ok {
-				step = curStepInt
-			}
-		} else {
+		// the row is (Variable_name, Value)
+		curStep := make([]driver.Value, len(rows.Columns()))
+		if len(curStep) < 2 {
 			return nil, fmt.Errorf("query is empty")
+		}
+		if err := rows.Next(curStep); err != nil {
+			return nil, err
+		}
+		switch v := curStep[1].(type) {
+		case int64:
+			step = v
+		case []byte:
+			step, _ = strconv.ParseInt(string(v), 10, 64)
+		case string:
+			step, _ = strconv.ParseInt(v, 10, 64)
 		}
 	}
 
